@@ -77,6 +77,26 @@ def token_spans(drv, text):
     return [k for k, _ in toks[1:]], spans
 
 
+def cli_rejects(rep, text, label):
+    """the command line on a text outside the language: non-zero exit status, nothing written"""
+    import os, subprocess, tempfile
+    with tempfile.TemporaryDirectory(prefix='yldverif') as td:
+        src, out = os.path.join(td, 'in.prolog'), os.path.join(td, 'out.py')
+        with open(src, 'wb') as f:
+            f.write(text.encode('utf8'))
+        env = dict(os.environ)
+        env['PYTHONPATH'] = os.path.join(common.REPO, 'src')
+        p = subprocess.run([common.PY, '-m', 'yldprolog.compiler', '-o', out, '--', src], capture_output=True, env=env, timeout=120)
+        written = open(out, 'rb').read() if os.path.exists(out) else b''
+    rep.count('cli-on-rejected-text')
+    if p.returncode == 0:
+        rep.disagreements_checked += 1
+        rep.violation({'text': text, 'edit': label, 'kind': 'the command line exits with status 0 for a text outside the grammar',
+                       'stderr': p.stderr.decode('utf8', 'replace')[-300:], 'written': written.decode('utf8', 'replace')[:300]})
+        return False
+    return True
+
+
 def judge(rep, drv, rec, text, label):
     """one string: oracle vs real vs model"""
     rep.evaluations += 1
@@ -150,10 +170,15 @@ def case(rep, drv, rnd, i, tier):
     if spans is None:
         return
     rep.nontriv(text)
+    cli_budget = 2
     for label, t2 in corruptions(rnd, text, spans):
         rep.count('edit:' + label)
         if not judge(rep, drv, rec, t2, label):
             return
+        if cli_budget and rnd.random() < 0.1 and comp.real_compile(t2)[0] != 'ok':
+            cli_budget -= 1
+            if not cli_rejects(rep, t2, label):
+                return
     if i < 2:
         rep.sample({'text': text, 'corruptions': [c for c in corruptions(rnd, text, spans)[:4]]})
 
